@@ -99,6 +99,8 @@ func (g *Gateway) extractHostname(host string) (hostname string, err error) {
 		err = fmt.Errorf("gateway: too few labels in hostname")
 		return
 	}
+	// host names are case-insensitive, compare against the (lowercase) root domains in lowercase
+	host = strings.ToLower(host)
 	parts := strings.SplitN(host, ".", 2)
 	if len(parts) != 2 {
 		err = fmt.Errorf("gateway: invalid hostname for forwarding")
